@@ -256,6 +256,7 @@ class Pairing:
         zero = tuple(("0", "0") for _ in O2_RELATIONS)
         recorded = []  # (RelEvent, facts, tokens) at that point
         refusals = []  # (check / refusable notify event, relation state) reached with a relation half-updated
+        refusal_tokens = []  # (refusal event, shared writes already performed on that path)
         sum_events = set()
         from .typestate import is_public_entry as _pub
         pub = _pub(f)
@@ -274,6 +275,8 @@ class Pairing:
                         for (fa, rl, tk) in outs:
                             if any(cb != ("0", "0") for cb in rl):
                                 refusals.append((ev, rl))
+                            if any(t.startswith("W:") for t in tk):
+                                refusal_tokens.append((ev, tk))
                 if ev.kind == "write":
                     fr = fresh_recv(ev)
                     res = [] if fr else self.rel_events(f, fe, ev)
@@ -410,7 +413,7 @@ class Pairing:
                 merged[k] = (merged[k][0], merged[k][1], merged[k][2] & tk)
             else:
                 merged[k] = (re_, [fa], tk)
-        self.results[f.key] = {"exit": ex, "events": list(merged.values()), "state": state, "fe": fe, "refusals": refusals}
+        self.results[f.key] = {"exit": ex, "events": list(merged.values()), "state": state, "fe": fe, "refusals": refusals, "refusal_tokens": refusal_tokens}
 
 
 def expand_defs(text, facts, depth=3):
